@@ -1,0 +1,10 @@
+//go:build verif
+
+package eval
+
+import "ti/verifhook"
+
+func init() {
+	verifhook.Register("eval.DefineInfoArticles", &DefineInfoArticles)
+	verifhook.Register("eval.DynamicEvaluators", &DynamicEvaluators)
+}
